@@ -3,10 +3,13 @@ import corr
 from checks import alu_common
 
 PROP = "C03"
-MODULE = "Proofs.C03"
+MODULE = "Proofs.C03Exec"
 NS = "Teakra.Alu."
 THEOREMS = [NS + t for t in ["addSub_result", "addSub_wf", "addSub_value", "addSub_carry", "addSub_overflow",
-                             "wf_toNat_cases", "accFlags_spec", "saturate_spec"]]
+                             "wf_toNat_cases", "accFlags_spec", "saturate_spec"]] + \
+           ["Teakra.Interp." + t for t in ["run_getAcc", "run_setAcc", "run_addSub", "run_satAndSetAccAndFlag",
+                                           "satSetRegs_spec", "satSetRegs_frame", "add_Ab_Bx_run", "sub_Ab_Bx_run",
+                                           "addSubRegs_spec", "cmp_Ax_Bx_run", "cmp_keeps_accumulators"]]
 TRUSTED = ["hand-written model lean/TeakraModel/Alu.lean (value parts of AddSub/SetAccFlag/SaturateAcc) and the handler "
            "transcriptions in lean/TeakraModel/Exec/*.lean, tied by the `alu` helper slice and the `interp` instruction slice"]
 ASSUMPTIONS = ["theorems are about the value-level helpers every ALU-family handler funnels through; the per-handler "
